@@ -3,6 +3,7 @@ import SamplyModel.Lemmas.ProfileIdentSer
 import SamplyModel.Lemmas.ProfileDecode
 import SamplyModel.Lemmas.ProfileFrameDesc
 import SamplyModel.Lemmas.ProfileNsym
+import SamplyModel.Lemmas.ProfileAddrFrame
 /-!
 # C03 — every serialized profile is internally consistent (no dangling index)
 
@@ -348,6 +349,37 @@ theorem C03_canonical_native_symbol (pre post : List Op) (t lib : Nat) (sym : Sy
   obtain ⟨th', ht', hd'⟩ := P.nsymDescOf_stable (ext_of_accepted _ post h) t th2 e2 j _ e4
   obtain ⟨st, hst, htid, hdec⟩ := decodeNsym_of_inv _ (Inv.run _ h).2 s hs t th' ht'
   exact ⟨th0, th', st, id, sz, nm, e1, ht', hst, htid, e3, by rw [hdec j, hd'], e5, e6⟩
+
+/-- **Canonical interning of address frames.** If `handle_for_frame_with_address(thread, address, subcategory,
+flags)` returned the frame handle `(t, i)` at some point of an accepted history, then in the profile
+serialized at the end of the history row `i` of that thread's frame table decodes to a description that
+satisfies the caller-side specification `P.AddrFrameSpec`, evaluated in the state before the call: the
+category / subcategory names behind the subcategory handle, the flags, no file / line / column, inline depth
+0; for an address no mapping of the thread's process covers: the hex string of the address as name and no
+library / address / native symbol; for an address inside a library (through the mapping with the greatest
+start covering it, or given library-relative): the *identity* of that library (reached through
+`funcTable.resource → resourceTable.lib → libs`), the relative address, and — if the library's symbol table
+has a symbol covering the relative address — the native symbol (library identity, symbol address, size,
+name; first registration of (library, address) on the thread wins) with its name as the frame's name,
+otherwise the hex string of the relative address and no native symbol. -/
+theorem C03_canonical_address_frame (pre post : List Op) (t : Nat) (a : AddrSpec) (sc : SubSpec) (flags i : Nat)
+    (h : Accepted (pre ++ .frameAddr t a sc flags :: post) = true)
+    (hout : (step (run pre) (.frameAddr t a sc flags)).2 = .h [t, i])
+    (s : SerProfile) (hs : serialize (run (pre ++ .frameAddr t a sc flags :: post)) = some s) :
+    ∃ d, (run pre).AddrFrameSpec t a sc flags d ∧
+      ∃ th st, (run (pre ++ .frameAddr t a sc flags :: post)).threads[t]? = some th ∧ st ∈ s.threads ∧
+        st.tid = idString th.tid ∧ decodeFrame s st i = some d := by
+  obtain ⟨hpre, hv⟩ := C03_accepted_split pre _ post h
+  obtain ⟨d, th2, k, hd, ht2, hk2, hdesc⟩ :=
+    addr_step (run pre) (Inv.run pre hpre) (SDecAll.run pre hpre) t a sc flags hv i hout
+  have hrun : run (pre ++ [.frameAddr t a sc flags]) = (step (run pre) (.frameAddr t a sc flags)).1 := by
+    simp [run, List.foldl_append]
+  have hall : pre ++ .frameAddr t a sc flags :: post = (pre ++ [.frameAddr t a sc flags]) ++ post := by simp
+  rw [hall] at h hs ⊢
+  rw [← hrun] at ht2 hdesc
+  obtain ⟨th', ht', hk', hd'⟩ := C03_frame_desc_stable _ post h t i th2 k d ht2 hk2 hdesc
+  obtain ⟨st, hst, htid, hdec⟩ := C03_frame_decode _ h s hs t th' ht'
+  exact ⟨d, hd, th', st, ht', hst, htid, by rw [hdec i k hk', hd']⟩
 
 /-- **Frame handles are stable.** The frame key behind a valid frame handle is the same at the end of any
 continuation of the history. -/
